@@ -39,6 +39,8 @@ pub enum PayloadKind {
     /// bytes that imitate framing
     Lookalike,
     Runs,
+    /// a JSON document followed by insignificant white space up to the requested length
+    Json,
 }
 
 #[derive(Debug, Clone, Serialize, Deserialize, PartialEq, Eq)]
@@ -94,6 +96,15 @@ impl Payload {
                     out.extend_from_slice(&w[..take]);
                 }
             }
+            PayloadKind::Json => {
+                let doc = format!("{{\"k\":[1,2,{}],\"s\":\"caf\\u00e9 \\\"q\\\"\",\"n\":null}}", self.seed);
+                out.extend_from_slice(doc.as_bytes());
+                while out.len() < self.len {
+                    out.push(b" \n\t\r"[rng.below(4)]);
+                }
+                // a document is never cut: the requested length is a minimum here
+                return out;
+            }
             PayloadKind::Runs => {
                 while out.len() < self.len {
                     let b = (rng.next() & 0xff) as u8;
@@ -114,6 +125,7 @@ pub fn payload_kind() -> BoxedStrategy<PayloadKind> {
         1 => Just(PayloadKind::Text),
         3 => Just(PayloadKind::Lookalike),
         1 => Just(PayloadKind::Runs),
+        1 => Just(PayloadKind::Json),
     ]
     .boxed()
 }
@@ -270,6 +282,8 @@ pub enum ReadPlan {
     TextUtf8,
     /// `split()` then reads with the given sizes
     Split(Vec<usize>),
+    /// the json() helper
+    Json,
 }
 
 pub fn read_size() -> BoxedStrategy<usize> {
@@ -296,6 +310,7 @@ pub fn read_plan() -> BoxedStrategy<ReadPlan> {
         1 => Just(ReadPlan::WriteTo),
         1 => Just(ReadPlan::TextUtf8),
         1 => read_sizes().prop_map(ReadPlan::Split),
+        1 => Just(ReadPlan::Json),
     ]
     .boxed()
 }
